@@ -185,7 +185,8 @@ class StreamItemQueue:
                 if isfuture(next_entry):
                     try:
                         next_entry = next_entry.result()
-                    except Exception:
+                    except (Exception, CancelledError):
+                        # failed, or cancelled because the source failed
                         held = next_entry  # re-raise when delivered as head
                         break
                 batch.append(next_entry)
